@@ -718,6 +718,8 @@ class Interp:
         if n == "range":
             if all(isinstance(a, int) for a in args):
                 return list(range(*args))
+            if all(_is_static(a) for a in args):
+                raise RaiseSignal(ExcV("TypeError"), site)
             raise AnalysisError(f"range() over abstract bound {T.show(args)} at {site}")
         if n == "enumerate":
             return [(i, v) for i, v in enumerate(self.iterate(args[0], site), *(args[1:]))]
@@ -840,6 +842,8 @@ class Interp:
             if py is not None:
                 if isinstance(x, (T.Term, Rec)):
                     if isinstance(x, Rec):
+                        return False
+                    if klass.name in (x.meta.get("not_types") or ()):
                         return False
                     return T.mk("isinstance", (x, klass.name), origin=site)
                 if py is int and isinstance(x, bool):
@@ -1138,7 +1142,15 @@ class Interp:
                 if star:
                     n = val.meta.get("length")
                     if not isinstance(n, int):
-                        raise AnalysisError(f"starred unpacking of abstract value {T.show(val, 3)} at {site}")
+                        # unknown length: head / tail by index, the starred part as a slice term
+                        s0 = star[0]
+                        after = len(elts) - s0 - 1
+                        for k, e in enumerate(elts[:s0]):
+                            self.assign(e, T.mk("getitem", (val, k), origin=site), env)
+                        self.assign(elts[s0].value, T.mk("getitem", (val, slice(s0, -after if after else None, None)), origin=site), env)
+                        for k, e in enumerate(elts[s0 + 1 :]):
+                            self.assign(e, T.mk("getitem", (val, k - after), origin=site), env)
+                        return
                     val = [T.mk("getitem", (val, i), origin=site) for i in range(n)]
                 else:
                     val = [T.mk("getitem", (val, i), origin=site) for i in range(len(elts))]
@@ -1380,6 +1392,9 @@ class Interp:
                 return _PYOPS[op](a, b)
             except ZeroDivisionError:
                 raise RaiseSignal(ExcV("ZeroDivisionError"), site) from None
+            except TypeError:
+                # the analysed program itself raises TypeError on these statics
+                raise RaiseSignal(ExcV("TypeError"), site) from None
         if op == "add" and isinstance(a, (list, tuple)) and isinstance(b, type(a)):
             return a + b
         if op == "mul" and isinstance(a, (list, tuple)) and isinstance(b, int):
